@@ -96,6 +96,14 @@ class Engine(InterpMixin, AttrMixin):
         for c in self.pc:
             s.add(c)
         s.add(extra)
+        try:
+            from .npmodel import used_cards, venn_axioms
+            cards = used_cards(self.pc + [extra])
+            if cards:
+                for a in venn_axioms(cards):
+                    s.add(a)
+        except Unsupported:
+            pass
         self.solver_calls += 1
         r = s.check()
         return r != z3.unsat
